@@ -735,3 +735,60 @@ def int_ovf_input(ctx):
                           '%d site(s): %s' % (len(bad), ' | '.join('%s %s' % (f.loc(b), d) for b, d, s in bad))[:700])
     if n == 0:
         ctx.anchor_missing('arithmetic on input-derived values')
+
+
+# --------------------------------------------------------------------------- OPT-VALIDATE (C19)
+
+# constructor key -> number of option-validation exits confirmed by reading the pinned (repaired) tree
+VALIDATION_FLOORS = {
+    'XZWriter::new': 1,                    # too many pre-filters
+    'XZWriter::write_block_header': 1,     # filter chain longer than the format allows
+    'XZWriter::encode_lzma2_dict_size': 2, # below 4 KiB / above the largest encodable size
+    'LZMAWriter::new': 1,                  # preset dictionary together with a .lzma header
+    'LZMA2WriterMT::new': 2,               # chunk size missing / does not fit usize
+    'LZIPWriterMT::new': 2,                # member size missing / does not fit usize
+    'lzip::encode_dict_size': 1,           # dictionary size outside the encodable range
+}
+
+
+def validation_exits(f):
+    """Blocks that build an `Err(error_invalid_input/unsupported/invalid_data(..))` (or map_err to
+    one) under a condition: the option-validation exits of a constructor."""
+    n = 0
+    where = []
+    for bi, t, c in f.calls():
+        if c.name in ('error_invalid_input', 'error_unsupported', 'error_invalid_data', 'error_out_of_memory'):
+            n += 1
+            where.append(bi)
+    for cl in f.facts.closures_of(f):
+        for bi, t, c in cl.calls():
+            if c.name in ('error_invalid_input', 'error_unsupported', 'error_invalid_data'):
+                n += 1
+                where.append(0)
+    return n, where
+
+
+@rule('OPT-VALIDATE', ['C19'], floor=7)
+def opt_validate(ctx):
+    """The option validation that exists is kept: each writer constructor / header encoder still has
+    at least the number of rejecting exits (Err for an unusable option value) confirmed on the pinned
+    tree, and LZIPWriter::new still clamps the dictionary size into the format's range."""
+    F = ctx.facts
+    for key, floor in sorted(VALIDATION_FLOORS.items()):
+        f = F.fn(key)
+        if f is None:
+            ctx.anchor_missing(key)
+            continue
+        n, where = validation_exits(f)
+        k = '%s:validation-exits' % key
+        if n >= floor:
+            ctx.ok(k, f.loc(where[0] if where else 0), '%d rejecting exit(s) (confirmed floor %d)' % (n, floor))
+        else:
+            ctx.violation(k, f.loc(0), 'only %d option-validation exit(s) left where %d were confirmed: an unusable option value that '
+                          'used to be rejected is now accepted silently' % (n, floor))
+    ok, why = _exc_lzip_dict(F, F.fn('lzip::encode_dict_size')) if F.fn('lzip::encode_dict_size') else (False, '')
+    if ok:
+        ctx.ok('LZIPWriter::new:dict-size-clamped', '-', why[:160])
+    else:
+        ctx.violation('LZIPWriter::new:dict-size-clamped', '-', 'LZIPWriter::new no longer stores dict_size.clamp(4 KiB, 512 MiB): out-of-range '
+                      'dictionary sizes reach the header encoder and the encoder unvalidated')
